@@ -245,6 +245,12 @@ const engBodySh = `#!/bin/sh
 root=$1; label=$2; k=$3; n=$4; shift 4
 echo "$label" >> "$root/.exec.log"
 case ",$VERIF_FAIL," in *",$label,"*) echo "body of $label fails" >&2; exit 1;; esac
+case ",$VERIF_PARTIAL," in *",$label,"*)
+  # the process is killed in the middle of this body: outputs exist but are incomplete
+  for o in "$@"; do :; done
+  i=0; for o in "$@"; do if [ $i -lt $n ]; then mkdir -p "$(dirname "$o")"; echo partial > "$o"; fi; i=$((i+1)); done
+  kill -9 $PPID; exit 0;;
+esac
 outs=""
 i=0
 while [ $i -lt $n ]; do outs="$outs $1"; shift; i=$((i+1)); done
@@ -304,15 +310,16 @@ func (p *engProject) model() []mTarget {
 }
 
 type mObs struct {
-	Kind     string              `json:"kind"` // build | crash | gc | edit
-	OK       bool                `json:"ok"`
-	LoadErr  bool                `json:"load_err"`
-	Ran      []int               `json:"ran"`
-	Events   map[string][]string `json:"events"`   // label id -> kinds in order
-	Recs     [][3]int            `json:"recs"`     // (label id, rerun, hasdata), sorted
-	Started  []int               `json:"started"`  // crash: bodies started
-	Recorded []int               `json:"recorded"` // crash: records renamed during the run phase
-	Reasons  map[string]string   `json:"reasons,omitempty"`
+	Kind      string              `json:"kind"` // build | crash | gc | edit
+	OK        bool                `json:"ok"`
+	LoadErr   bool                `json:"load_err"`
+	Ran       []int               `json:"ran"`
+	Events    map[string][]string `json:"events"`    // label id -> kinds in order
+	Recs      [][3]int            `json:"recs"`      // (label id, rerun, hasdata), sorted
+	Started   []int               `json:"started"`   // crash: bodies started
+	Recorded  []int               `json:"recorded"`  // crash: records renamed during the run phase
+	Premarked []int               `json:"premarked"` // crash: function targets whose re-run mark was written
+	Reasons   map[string]string   `json:"reasons,omitempty"`
 }
 
 type mOp struct {
@@ -383,8 +390,12 @@ func (r *engRun) child(mode, lbl string, fail []int, crash string) (*engReport, 
 	for _, f := range fail {
 		fl = append(fl, r.p.label(f))
 	}
+	partial := ""
+	if strings.HasPrefix(crash, "partial|") {
+		partial = strings.TrimPrefix(crash, "partial|")
+	}
 	cmd.Env = append(os.Environ(), "VERIF_CHILD=1", "VERIF_ROOT="+r.root, "VERIF_MODE="+mode, "VERIF_LABEL="+lbl,
-		"VERIF_REPORT="+reportPath, "VERIF_FAIL="+strings.Join(fl, ","), "VERIF_CRASH="+crash)
+		"VERIF_REPORT="+reportPath, "VERIF_FAIL="+strings.Join(fl, ","), "VERIF_CRASH="+crash, "VERIF_PARTIAL="+partial)
 	done := make(chan error, 1)
 	var out []byte
 	go func() {
@@ -411,7 +422,7 @@ func (r *engRun) child(mode, lbl string, fail []int, crash string) (*engReport, 
 	var rep engReport
 	b, rerr := os.ReadFile(reportPath)
 	if rerr != nil {
-		if code != 137 && !hung {
+		if code != 137 && !hung && partial == "" {
 			tail := string(out)
 			if len(tail) > 600 {
 				tail = tail[len(tail)-600:]
